@@ -1,6 +1,6 @@
 (* Extraction for the C18 correspondence driver.  ExtrOcamlBasic only; nat,
    positive, N, Z stay the extracted inductive types.  No Extract Constant. *)
 From Coq Require Import Extraction ExtrOcamlBasic NArith ZArith List.
-From AHK Require Import Lib.ByteStr Model.Bcast.
+From AHK Require Import Lib.ByteStr Model.Bcast Model.BcastDb.
 Separate Extraction Z.of_N Z.to_N N.of_nat N.to_nat
-  detect apply event_begin event_end poll_begin poll_end falls_back plain_adv notify run from_bytes utf8_valid.
+  detect apply xapply cfg_begin cfg_end event_begin event_end poll_begin poll_end falls_back plain_adv notify run from_bytes utf8_valid.
